@@ -226,12 +226,42 @@ def same_cap(impl_out, model_out):
         return False
 
 
+ERRS = ("err ValueError", "err IndexError", "err TypeError", "err OverflowError", "err Other")
+
+
+def observable(line, out):
+    """what the properties say about the result of one operation (a harmless rewrite may change the rest:
+    bookkeeping statistics, the recorded path, the class of an error no property names - DESIGN.md §10.6):
+      rep  repair_dna        candidates and the detected count (C08-C10); not flag / count / visited
+      pm   path_matching     the records; not the visited count
+      enc  encode            strand and check; not the recorded path; no property names an error class of encode
+                             (inside every property's domain it does not raise), so all error classes are one
+    Non-termination (TIMEOUT / BUDGET / OUT_OF_FUEL) always stays distinct from a raised error."""
+    op = line.split(" ", 1)[0]
+    if out in NONTERM:
+        return "nonterm"
+    if op == "rep" and out.startswith("ok "):
+        return " ".join(out.split(" ")[:3])
+    if op == "pm" and out.startswith("ok "):
+        return " ".join(out.split(" ")[:2])
+    if op == "enc":
+        if out.startswith("ok "):
+            return " ".join(out.split(" ")[:3])
+        if out in ERRS:
+            return "err"
+    return out
+
+
 def same(line, impl_out, model_out):
     if impl_out == model_out:
         return True
     if line.startswith("cap "):
         return same_cap(impl_out, model_out)
-    return impl_out in NONTERM and model_out in NONTERM
+    if line.startswith("dec ") and model_out == "err IndexError" and (impl_out in ERRS or impl_out.startswith("ok ")):
+        # fast-mode decoding of a string that carries more bits than requested: outside C06's fast-mode clause
+        # (the model raises IndexError there because the pinned code does; no property says what must happen)
+        return True
+    return observable(line, impl_out) == observable(line, model_out)
 
 
 def write_replay(pid, seed, idx, data):
